@@ -11,7 +11,7 @@ var abstractChars = map[string]string{
 	"H": "가", "Z": "‍", "M": "\U0001F3FD", "W": "\U0001F44B", "R": "\U0001F1E6", "CR": "\r", "LF": "\n",
 	"/": "/", " ": " ", "eacute": "é", "=": "=", "S": "̸", "<": "<", "cedilla": "̧", "dot": "̣",
 	// names used by the string-function reference (TextRef.tla)
-	"wave": "\U0001F44B", "tone": "\U0001F3FD", "zwj": "\u200d", "ri": "\U0001F1E6", "TAB": "\t",
+	"omega": "\u03a9", "hangul": "\uac00", "wave": "\U0001F44B", "tone": "\U0001F3FD", "zwj": "\u200d", "ri": "\U0001F1E6", "TAB": "\t",
 }
 
 // multi-letter abstract names by code point (single-letter names stand for themselves,
